@@ -100,6 +100,7 @@ struct World {
 	rp           peer;
 	bool         up = false;
 	bool         hs_ok = false;  // current hostile connection passed the handshake
+	bool         hs_tainted = false; // further bytes were written into an incomplete handshake: it may have become complete (valid or not)
 	Bytes        stream;         // bytes written after the handshake on the current connection
 	size_t       decoded = 0;    // prefix of stream already decoded
 	bool         must_close = false;
@@ -443,6 +444,7 @@ exec_c11(const vcase *vc)
 		long long a0 = vop_arg(o, 0, 0), a1 = vop_arg(o, 1, 0), a2 = vop_arg(o, 2, 0), a3 = vop_arg(o, 3, 1), a4 = vop_arg(o, 4, 0);
 		if (n == "reconnect") { // reconnect hskind k
 			hostile_close(W);
+			W.hs_tainted = false;
 			if (raw_connect(W, &W.peer) != 0)
 				vr_fail("C11:listener-dead", "%s: listener refuses connections during the hostile session", W.P->name);
 			W.up = true;
@@ -542,6 +544,8 @@ exec_c11(const vcase *vc)
 			if (o->nd)
 				b.assign(o->d[0], o->d[0] + o->dl[0]);
 			if (!W.hs_ok) {
+				if (!b.empty())
+					W.hs_tainted = true;
 				rp_write(&W.peer, b.data(), b.size());
 				vs_settle();
 			} else {
@@ -555,7 +559,7 @@ exec_c11(const vcase *vc)
 			int ms = (int) a0;
 			vs_sleep(ms > 0 ? ms : 1);
 			vs_settle();
-			if (W.up && !W.hs_ok && ms >= 11000 && W.tr != 0) {
+			if (W.up && !W.hs_ok && !W.hs_tainted && ms >= 11000 && W.tr != 0) {
 				rp_pump(&W.peer);
 				VR_CHECK(W.peer.eof, "C11:stalled-handshake-kept", "%s: a connection that never completed its handshake is still open after %d ms", W.P->name, ms);
 				vr_tag("handshake_timeout");
